@@ -3,18 +3,24 @@
   "no coefficient position is identically zero").  Core Lean only.
 
   `Model/Ast.lean` keeps the local slots in a function store `Nat → Felt` (a chain of closures: one
-  read costs O(number of writes)) and the inputs in arrays.  Here
+  read costs O(number of writes)) and the inputs in arrays; evaluated by the kernel
+  (`decide +kernel`) that is hopeless for programs of 10^4 statements.  Everything in this file is
+  written for the kernel's reduction engine (call-by-name with a cache of weak head normal forms):
 
-    * field elements are their representatives (`Nat`, arithmetic `… % P` on GMP-accelerated `Nat`
-      primitives), forced to a literal after every operation (`force`),
-    * the store and the input vectors are binary tries keyed by the bits of the index; the trie is
-      updated in continuation-passing style (`setK`) so that, under the kernel's call-by-name
-      reduction, every trie that is passed on is a fully evaluated constructor tree (a lazily
-      updated trie degenerates into chains of suspended projections),
+    * definitions are direct applications of recursors (hence `noncomputable`: they are never
+      compiled, only reduced) and of the GMP-accelerated `Nat` primitives — no `match`, no
+      structural-recursion compilation, no type-class indirection: each costs kernel steps;
+    * field elements are their representatives (`Nat`, arithmetic `… % P`), forced to a literal after
+      every operation (`force`);
+    * an input vector is ONE natural number, entry `i` in bits `256·i … 256·i+255` (`rawGet`); the
+      store is a radix-4 tree of depth 4 whose 256 leaves are such packed PAGES (slot `s` lives in
+      page `s % 256` at position `s / 256`), updated in continuation-passing style so that every
+      store that is passed on is a fully evaluated constructor tree;
     * field inverses may be supplied as HINTS (a list consumed in evaluation order): a hint `h` for
       the divisor `y` is used only after checking `y * h % P = 1 ∧ h < P`; without hints the inverse
-      is computed (`invN`, Fermat),
-    * the run is a structurally recursive loop `nzGo` that threads the trie, the hints and a counter.
+      is computed (`invN`, Fermat);
+    * the evaluator (`evalK`) and the run (`nzGo`) are in continuation-passing style: failure is
+      `none`, success calls the continuation.
 
   `nzCount inp hints p = some k` implies that the coefficient-free shadow run of `p` on `inp` (the one
   that defines `executedTerms` in `Proofs/AstChain.lean`) executes exactly `k` accumulate statements
@@ -25,104 +31,135 @@ import Swiftness.Model.Ast
 
 namespace Swiftness.Ast.Fast
 
-/-- evaluate `n` to a literal before continuing (the kernel substitutes arguments unevaluated;
-    matching on `n` forces it).  `force n k = k n`. -/
-def force {α : Sort u} (n : Nat) (k : Nat → α) : α :=
-  match n with
-  | 0 => k 0
-  | Nat.succ m => k (Nat.succ m)
+/-- `if b then t else f` -/
+noncomputable def sel {α : Type} (b : Bool) (t f : α) : α := @Bool.rec (fun _ => α) f t b
 
-/-- binary trie: key `0` is the root, odd keys `2j+1` live in the left subtree under key `j`, even
-    keys `2j+2` in the right subtree under key `j`; absent = `0` -/
-inductive Trie where
-  | leaf : Trie
-  | node (v : Nat) (l r : Trie) : Trie
+/-- evaluate `n` to a literal before continuing (the kernel substitutes arguments unevaluated;
+    eliminating `n` forces it).  `force n k = k n`. -/
+noncomputable def force {α : Type} (n : Nat) (k : Nat → α) : α :=
+  @Nat.rec (fun _ => α) (k 0) (fun m _ => k (Nat.succ m)) n
+
+/-! ### packed vectors -/
+
+/-- `2^256`: entries are `256` bits wide (`P < 2^256`) -/
+def B : Nat := 0x10000000000000000000000000000000000000000000000000000000000000000
+
+/-- entry `i` of the packed vector `S` -/
+noncomputable def rawGet (S i : Nat) : Nat :=
+  Nat.mod (Nat.shiftRight S (Nat.mul 256 i)) B
+
+/-- overwrite entry `i` (current content `rawGet S i`) with `v < B` -/
+noncomputable def rawSet (S i v : Nat) : Nat :=
+  Nat.xor S (Nat.shiftLeft (Nat.xor (rawGet S i) v) (Nat.mul 256 i))
+
+/-- `xs[0], xs[1], …` stored in entries `i, i+1, …` of `S`; `none` if some `x ≥ 2^256` -/
+noncomputable def packAux {β : Type} (xs : List Nat) : Nat → Nat → (Nat → Option β) → Option β :=
+  @List.rec Nat (fun _ => Nat → Nat → (Nat → Option β) → Option β)
+    (fun _ S c => c S)
+    (fun x _ ih i S c =>
+      sel (Nat.blt x B)
+        (force (rawSet S i x) fun S' => force (Nat.succ i) fun i' => ih i' S' c)
+        none)
+    xs
+
+noncomputable def listLen (xs : List Nat) : Nat → Nat :=
+  @List.rec Nat (fun _ => Nat → Nat) (fun n => n) (fun _ _ ih n => ih (Nat.succ n)) xs
+
+/-! ### the store: 256 pages in a radix-4 tree of depth 4
+
+  A PAGE keeps its entry `j` in packed entry `j + 1`; packed entry `0` is a version stamp that is
+  bumped by every write and never read.  (The kernel caches reductions in a hash table keyed by
+  terms, and the hash of a `Nat` literal is its low 64 bits: without the stamp all versions of a
+  page — hence of the store — collide.) -/
+
+noncomputable def pageGet (pg j : Nat) : Nat := rawGet pg (Nat.succ j)
+
+noncomputable def pageSet (pg j v : Nat) : Nat :=
+  rawSet (rawSet pg (Nat.succ j) v) 0 (Nat.mod (Nat.succ (rawGet pg 0)) B)
+
+inductive Tree where
+  | leaf : Tree
+  | page (pg : Nat) : Tree
+  | node (a b c d : Tree) : Tree
   deriving Inhabited
 
-namespace Trie
+/-- `j`-th of four -/
+noncomputable def sel4 {α : Type} (j : Nat) (a b c d : α) : α :=
+  sel (Nat.ble j 1) (sel (Nat.beq j 0) a b) (sel (Nat.beq j 2) c d)
 
-def get : Trie → Nat → Nat
-  | leaf, _ => 0
-  | node v l r, k =>
-    cond (Nat.beq k 0) v
-      (cond (Nat.beq (k % 2) 1) (l.get (k / 2)) (r.get (k / 2 - 1)))
+/-- page number `k` (base-4 digits, least significant first) in a tree of depth `d`; absent = `0` -/
+noncomputable def Tree.get (d : Nat) : Tree → Nat → Nat :=
+  @Nat.rec (fun _ => Tree → Nat → Nat)
+    (fun t _ => @Tree.rec (fun _ => Nat) 0 (fun pg => pg) (fun _ _ _ _ _ _ _ _ => 0) t)
+    (fun _ ih t k =>
+      @Tree.rec (fun _ => Nat) 0 (fun _ => 0)
+        (fun a b c e _ _ _ _ => ih (sel4 (Nat.mod k 4) a b c e) (Nat.div k 4)) t)
+    d
 
-/-- specification of the update; `fuel > k` suffices (the key at least halves at each level) -/
-def setAux : Nat → Trie → Nat → Nat → Trie
-  | 0, t, _, _ => t
-  | fuel + 1, leaf, k, x =>
-    cond (Nat.beq k 0) (node x leaf leaf)
-      (cond (Nat.beq (k % 2) 1)
-        (node 0 (setAux fuel leaf (k / 2) x) leaf)
-        (node 0 leaf (setAux fuel leaf (k / 2 - 1) x)))
-  | fuel + 1, node v l r, k, x =>
-    cond (Nat.beq k 0) (node x l r)
-      (cond (Nat.beq (k % 2) 1)
-        (node v (setAux fuel l (k / 2) x) r)
-        (node v l (setAux fuel r (k / 2 - 1) x)))
+/-- the four subtrees of a node; anything else counts as empty -/
+noncomputable def Tree.kids {α : Type} (t : Tree) (c : Tree → Tree → Tree → Tree → α) : α :=
+  @Tree.rec (fun _ => α) (c .leaf .leaf .leaf .leaf) (fun _ => c .leaf .leaf .leaf .leaf)
+    (fun a b c' e _ _ _ _ => c a b c' e) t
 
-def set (t : Trie) (k x : Nat) : Trie := setAux (k + 1) t k x
+/-- the page held by a depth-0 tree; anything else counts as empty -/
+noncomputable def Tree.pg (t : Tree) : Nat :=
+  @Tree.rec (fun _ => Nat) 0 (fun pg => pg) (fun _ _ _ _ _ _ _ _ => 0) t
 
-/-- the update in continuation-passing style: `setK fuel t k x c = c (setAux fuel t k x)`, and the
-    continuation receives a constructor term whose subtrees are those of `t` or freshly built -/
-def setK {α : Sort u} : Nat → Trie → Nat → Nat → (Trie → α) → α
-  | 0, t, _, _, c => c t
-  | fuel + 1, leaf, k, x, c =>
-    cond (Nat.beq k 0) (c (node x leaf leaf))
-      (cond (Nat.beq (k % 2) 1)
-        (setK fuel leaf (k / 2) x fun l => c (node 0 l leaf))
-        (setK fuel leaf (k / 2 - 1) x fun r => c (node 0 leaf r)))
-  | fuel + 1, node v l r, k, x, c =>
-    cond (Nat.beq k 0) (c (node x l r))
-      (cond (Nat.beq (k % 2) 1)
-        (setK fuel l (k / 2) x fun l' => c (node v l' r))
-        (setK fuel r (k / 2 - 1) x fun r' => c (node v l r')))
+/-- replace page number `k` by `f (old page)`, continuation-passing -/
+noncomputable def Tree.upd {β : Type} (d : Nat) : Tree → Nat → (Nat → Nat) → (Tree → β) → β :=
+  @Nat.rec (fun _ => Tree → Nat → (Nat → Nat) → (Tree → β) → β)
+    (fun t _ f c => force (f t.pg) fun pg' => c (.page pg'))
+    (fun _ ih t k f c =>
+      t.kids fun a b c' e =>
+        sel (Nat.ble (Nat.mod k 4) 1)
+          (sel (Nat.beq (Nat.mod k 4) 0)
+            (ih a (Nat.div k 4) f fun x => c (.node x b c' e))
+            (ih b (Nat.div k 4) f fun x => c (.node a x c' e)))
+          (sel (Nat.beq (Nat.mod k 4) 2)
+            (ih c' (Nat.div k 4) f fun x => c (.node a b x e))
+            (ih e (Nat.div k 4) f fun x => c (.node a b c' x))))
+    d
 
-/-- `xs[0], xs[1], …` stored at keys `i, i+1, …` -/
-def ofListAux : List Nat → Nat → Trie → Trie
-  | [], _, t => t
-  | x :: xs, i, t => ofListAux xs (i + 1) (t.set i x)
+/-- local slot `s` -/
+noncomputable def getS (S : Tree) (s : Nat) : Nat :=
+  pageGet (Tree.get 4 S (Nat.mod s 256)) (Nat.div s 256)
 
-def ofList (xs : List Nat) : Trie := ofListAux xs 0 leaf
-
-def ofListK {α : Sort u} : List Nat → Nat → Trie → (Trie → α) → α
-  | [], _, t, c => c t
-  | x :: xs, i, t, c =>
-    force x fun x' => force (i + 1) fun i' => setK i' t i x' fun t' => ofListK xs i' t' c
-
-end Trie
+noncomputable def setS {β : Type} (S : Tree) (s v : Nat) (c : Tree → β) : β :=
+  Tree.upd 4 S (Nat.mod s 256) (fun pg => pageSet pg (Nat.div s 256) v) c
 
 /-! ### field arithmetic on representatives -/
 
-def addP (a b : Nat) : Nat := (a + b) % P
-def subP (a b : Nat) : Nat := ((P - b) + a) % P
-def mulP (a b : Nat) : Nat := (a * b) % P
-def negP (a : Nat) : Nat := (P - a) % P
+noncomputable def addP (a b : Nat) : Nat := Nat.mod (Nat.add a b) P
+noncomputable def subP (a b : Nat) : Nat := Nat.mod (Nat.add (Nat.sub P b) a) P
+noncomputable def mulP (a b : Nat) : Nat := Nat.mod (Nat.mul a b) P
+noncomputable def negP (a : Nat) : Nat := Nat.mod (Nat.sub P a) P
 
 /-- mirrors `Felt.powAux` -/
-def powN : Nat → Nat → Nat → Nat
-  | 0, _, _ => 1 % P
-  | fuel + 1, a, e =>
-    cond (Nat.beq e 0) (1 % P)
-      (force (mulP a a) fun a2 =>
-        force (e / 2) fun e2 =>
-          force (powN fuel a2 e2) fun r =>
-            cond (Nat.beq (e % 2) 1) (mulP a r) r)
+noncomputable def powN (fuel : Nat) : Nat → Nat → Nat :=
+  @Nat.rec (fun _ => Nat → Nat → Nat)
+    (fun _ _ => Nat.mod 1 P)
+    (fun _ ih a e =>
+      sel (Nat.beq e 0) (Nat.mod 1 P)
+        (force (mulP a a) fun a2 =>
+          force (Nat.div e 2) fun e2 =>
+            force (ih a2 e2) fun r =>
+              sel (Nat.beq (Nat.mod e 2) 1) (mulP a r) r))
+    fuel
 
-def invN (a : Nat) : Nat := powN 256 a (P - 2)
+noncomputable def invN (a : Nat) : Nat := powN 256 a (Nat.sub P 2)
 
-/-! ### inputs as tries -/
+/-! ### inputs as packed vectors -/
 
 structure FInputs where
-  mask : Trie
+  mask : Nat
   maskN : Nat
-  col : Trie
+  col : Nat
   colN : Nat
-  oodsv : Trie
+  oodsv : Nat
   oodsvN : Nat
-  gv : Trie
+  gv : Nat
   gvN : Nat
-  dp : Trie
+  dp : Nat
   dpN : Nat
   point : Nat
   tgen : Nat
@@ -130,140 +167,114 @@ structure FInputs where
 
 def feltVals (a : Array Felt) : List Nat := a.toList.map (·.val)
 
-/-- `c` receives the inputs with every vector converted to a (fully evaluated) trie -/
-def withInputs {α : Sort u} (inp : Inputs) (c : FInputs → α) : α :=
-  Trie.ofListK (feltVals inp.mask) 0 .leaf fun mask =>
-  Trie.ofListK (feltVals inp.col) 0 .leaf fun col =>
-  Trie.ofListK (feltVals inp.oodsv) 0 .leaf fun oodsv =>
-  Trie.ofListK (feltVals inp.gv) 0 .leaf fun gv =>
-  Trie.ofListK inp.dp.toList 0 .leaf fun dp =>
-  force (feltVals inp.mask).length fun maskN =>
-  force (feltVals inp.col).length fun colN =>
-  force (feltVals inp.oodsv).length fun oodsvN =>
-  force (feltVals inp.gv).length fun gvN =>
-  force inp.dp.toList.length fun dpN =>
+/-- `c` receives the inputs with every vector packed (and evaluated); `none` if a dynamic parameter
+    does not fit 256 bits -/
+noncomputable def withInputs {β : Type} (inp : Inputs) (c : FInputs → Option β) : Option β :=
+  packAux (feltVals inp.mask) 0 0 fun mask =>
+  packAux (feltVals inp.col) 0 0 fun col =>
+  packAux (feltVals inp.oodsv) 0 0 fun oodsv =>
+  packAux (feltVals inp.gv) 0 0 fun gv =>
+  packAux inp.dp.toList 0 0 fun dp =>
+  force (listLen (feltVals inp.mask) 0) fun maskN =>
+  force (listLen (feltVals inp.col) 0) fun colN =>
+  force (listLen (feltVals inp.oodsv) 0) fun oodsvN =>
+  force (listLen (feltVals inp.gv) 0) fun gvN =>
+  force (listLen inp.dp.toList 0) fun dpN =>
   force inp.point.val fun point =>
   force inp.tgen.val fun tgen =>
   force inp.oodsPoint.val fun oodsPoint =>
   c { mask, maskN, col, colN, oodsv, oodsvN, gv, gvN, dp, dpN, point, tgen, oodsPoint }
 
-/-- specification of `withInputs` -/
-def FInputs.ofInputs (inp : Inputs) : FInputs where
-  mask := Trie.ofList (feltVals inp.mask)
-  maskN := (feltVals inp.mask).length
-  col := Trie.ofList (feltVals inp.col)
-  colN := (feltVals inp.col).length
-  oodsv := Trie.ofList (feltVals inp.oodsv)
-  oodsvN := (feltVals inp.oodsv).length
-  gv := Trie.ofList (feltVals inp.gv)
-  gvN := (feltVals inp.gv).length
-  dp := Trie.ofList inp.dp.toList
-  dpN := inp.dp.toList.length
-  point := inp.point.val
-  tgen := inp.tgen.val
-  oodsPoint := inp.oodsPoint.val
+/-! ### expressions -/
 
-/-- value and remaining hints -/
-abbrev Res := Option (Nat × List Nat)
+/-- continuation of an evaluation: value, remaining hints -/
+abbrev K (β : Type) := Nat → List Nat → Option β
 
-def ret (n : Nat) (hs : List Nat) : Res := force n fun v => some (v, hs)
+/-- `a[i]?` on a vector of length `n` packed in `S` -/
+noncomputable def idxK {β : Type} (S n i : Nat) (hs : List Nat) (c : K β) : Option β :=
+  sel (Nat.blt i n) (force (rawGet S i) fun v => c v hs) none
 
-/-- `a[i]?` on a vector of length `n` stored in `t` -/
-def idxN (t : Trie) (n i : Nat) (hs : List Nat) : Res :=
-  cond (Nat.blt i n) (ret (t.get i) hs) none
-
-def ixN (fi : FInputs) : Ix → Option Nat
-  | .lit n => some n
-  | .dp i => cond (Nat.blt i fi.dpN) (force (fi.dp.get i) some) none
-  | .add a b => match ixN fi a, ixN fi b with
-    | some x, some y => force (x + y) some
-    | _, _ => none
+noncomputable def ixK {β : Type} (fi : FInputs) (ix : Ix) : (Nat → Option β) → Option β :=
+  @Ix.rec (fun _ => (Nat → Option β) → Option β)
+    (fun n c => c n)
+    (fun i c => sel (Nat.blt i fi.dpN) (force (rawGet fi.dp i) c) none)
+    (fun _ _ iha ihb c => iha fun x => ihb fun y => force (Nat.add x y) c)
+    ix
 
 /-- `x / y` in the field: with a hint `h` (checked: `y * h = 1`, `h < P`) or by Fermat -/
-def fdivN (x y : Nat) : List Nat → Res
-  | [] => cond (Nat.beq y 0) none (ret (mulP x (invN y)) [])
-  | h :: hs => cond (Nat.beq (mulP y h) 1 && Nat.blt h P) (ret (mulP x h) hs) none
+noncomputable def fdivK {β : Type} (x y : Nat) (hs : List Nat) (c : K β) : Option β :=
+  @List.rec Nat (fun _ => Option β)
+    (sel (Nat.beq y 0) none (force (mulP x (invN y)) fun v => c v []))
+    (fun h hs' _ =>
+      sel (Nat.beq (mulP y h) 1)
+        (sel (Nat.blt h P) (force (mulP x h) fun v => c v hs') none)
+        none)
+    hs
 
-/-- `Expr.eval` on representatives, against the EMPTY coefficient vector (`.coeff _` panics);
-    `none` = panic (or a rejected hint) -/
-def evalN (fi : FInputs) (t : Trie) : Expr → List Nat → Res
-  | .const n, hs => ret (n % P) hs
-  | .var s, hs => ret (t.get s) hs
-  | .gv i, hs => idxN fi.gv fi.gvN i hs
-  | .dp i, hs => match idxN fi.dp fi.dpN i hs with
-    | some (v, hs) => ret (v % P) hs
-    | none => none
-  | .mask i, hs => idxN fi.mask fi.maskN i hs
-  | .oodsv i, hs => idxN fi.oodsv fi.oodsvN i hs
-  | .coeff _, _ => none
-  | .col ix, hs => match ixN fi ix with
-    | some i => idxN fi.col fi.colN i hs
-    | none => none
-  | .point, hs => some (fi.point, hs)
-  | .tgen, hs => some (fi.tgen, hs)
-  | .oodsPoint, hs => some (fi.oodsPoint, hs)
-  | .add a b, hs => match evalN fi t a hs with
-    | some (x, hs) => match evalN fi t b hs with
-      | some (y, hs) => ret (addP x y) hs
-      | none => none
-    | none => none
-  | .sub a b, hs => match evalN fi t a hs with
-    | some (x, hs) => match evalN fi t b hs with
-      | some (y, hs) => ret (subP x y) hs
-      | none => none
-    | none => none
-  | .mul a b, hs => match evalN fi t a hs with
-    | some (x, hs) => match evalN fi t b hs with
-      | some (y, hs) => ret (mulP x y) hs
-      | none => none
-    | none => none
-  | .neg a, hs => match evalN fi t a hs with
-    | some (x, hs) => ret (negP x) hs
-    | none => none
-  | .fdiv a b, hs => match evalN fi t a hs with
-    | some (x, hs) => match evalN fi t b hs with
-      | some (y, hs) => fdivN x y hs
-      | none => none
-    | none => none
-  | .floorDiv a b, hs => match evalN fi t a hs with
-    | some (x, hs) => match evalN fi t b hs with
-      | some (y, hs) => ret ((x / y) % P) hs
-      | none => none
-    | none => none
-  | .powFelt a b, hs => match evalN fi t a hs with
-    | some (x, hs) => match evalN fi t b hs with
-      | some (y, hs) => ret (powN 256 x y) hs
-      | none => none
-    | none => none
+/-- binary node: evaluate both operands (left first), combine, force -/
+noncomputable def bin {β : Type} (op : Nat → Nat → Nat)
+    (iha ihb : List Nat → K β → Option β) (hs : List Nat) (c : K β) : Option β :=
+  iha hs fun x hs1 => ihb hs1 fun y hs2 => force (op x y) fun v => c v hs2
 
-def guardsN (t : Trie) : List Nat → Bool
-  | [] => true
-  | g :: gs => cond (Nat.beq (t.get g) 0) false (guardsN t gs)
+/-- `Expr.eval` on representatives, against the EMPTY coefficient vector (`.coeff _` panics), in
+    continuation-passing style; `none` = panic (or a rejected hint) -/
+noncomputable def evalK {β : Type} (fi : FInputs) (S : Tree) (e : Expr) :
+    List Nat → K β → Option β :=
+  @Expr.rec (fun _ => List Nat → K β → Option β)
+    (fun n hs c => force (Nat.mod n P) fun v => c v hs)                          -- const
+    (fun s hs c => force (getS S s) fun v => c v hs)                              -- var
+    (fun i hs c => idxK fi.gv fi.gvN i hs c)                                      -- gv
+    (fun i hs c => idxK fi.dp fi.dpN i hs fun v hs' => force (Nat.mod v P) fun w => c w hs')  -- dp
+    (fun i hs c => idxK fi.mask fi.maskN i hs c)                                  -- mask
+    (fun i hs c => idxK fi.oodsv fi.oodsvN i hs c)                                -- oodsv
+    (fun _ _ _ => none)                                                           -- coeff
+    (fun ix hs c => ixK fi ix fun i => idxK fi.col fi.colN i hs c)                -- col
+    (fun hs c => c fi.point hs)                                                   -- point
+    (fun hs c => c fi.tgen hs)                                                    -- tgen
+    (fun hs c => c fi.oodsPoint hs)                                               -- oodsPoint
+    (fun _ _ iha ihb => bin addP iha ihb)                                         -- add
+    (fun _ _ iha ihb => bin subP iha ihb)                                         -- sub
+    (fun _ _ iha ihb => bin mulP iha ihb)                                         -- mul
+    (fun _ iha hs c => iha hs fun x hs1 => force (negP x) fun v => c v hs1)       -- neg
+    (fun _ _ iha ihb hs c => iha hs fun x hs1 => ihb hs1 fun y hs2 => fdivK x y hs2 c)  -- fdiv
+    (fun _ _ iha ihb => bin (fun x y => Nat.mod (Nat.div x y) P) iha ihb)         -- floorDiv
+    (fun _ _ iha ihb => bin (fun x y => powN 256 x y) iha ihb)                    -- powFelt
+    e
 
-/-- the shadow run: returns the final store and the number of executed accumulate statements, or
-    `none` if some evaluation panics or some executed accumulate statement has a zero term -/
-def nzGo (fi : FInputs) : Prog → Trie → List Nat → Nat → Option (Trie × List Nat × Nat)
-  | [], t, hs, k => some (t, hs, k)
-  | g :: rest, t, hs, k =>
-    cond (guardsN t g.guards)
-      (match g.stmt with
-        | .set s e => match evalN fi t e hs with
-          | some (v, hs) => Trie.setK (s + 1) t s v fun t' => nzGo fi rest t' hs k
-          | none => none
-        | .acc dst _ _ e => match evalN fi t e hs with
-          | some (v, hs) =>
-            cond (Nat.beq v 0) none
-              (force (k + 1) fun k' => Trie.setK (dst + 1) t dst 0 fun t' => nzGo fi rest t' hs k')
-          | none => none)
-      (nzGo fi rest t hs k)
+/-! ### programs -/
+
+noncomputable def guardsN (S : Tree) (gs : List Nat) : Bool :=
+  @List.rec Nat (fun _ => Bool) true
+    (fun g _ ih => sel (Nat.beq (getS S g) 0) false ih) gs
+
+/-- continuation of a run: store, remaining hints, number of executed accumulate statements -/
+abbrev KS (β : Type) := Tree → List Nat → Nat → Option β
+
+noncomputable def stmtK {β : Type} (fi : FInputs) (st : Stmt) (S : Tree) (hs : List Nat) (k : Nat)
+    (c : KS β) : Option β :=
+  @Stmt.rec (fun _ => Option β)
+    (fun s e => evalK fi S e hs fun v hs' => setS S s v fun S' => c S' hs' k)
+    (fun dst _ _ e => evalK fi S e hs fun v hs' =>
+      sel (Nat.beq v 0) none
+        (force (Nat.succ k) fun k' => setS S dst 0 fun S' => c S' hs' k'))
+    st
+
+/-- the shadow run; `none` if some evaluation panics or some executed accumulate statement has a
+    zero term -/
+noncomputable def nzGo {β : Type} (fi : FInputs) (p : Prog) :
+    Tree → List Nat → Nat → KS β → Option β :=
+  @List.rec GStmt (fun _ => Tree → List Nat → Nat → KS β → Option β)
+    (fun S hs k c => c S hs k)
+    (fun g _ ih S hs k c =>
+      sel (guardsN S g.guards)
+        (stmtK fi g.stmt S hs k fun S' hs' k' => ih S' hs' k' c)
+        (ih S hs k c))
+    p
 
 /-- `some k`: the shadow run of `p` on `inp` finishes, executes `k` accumulate statements, and each
     of their terms is non-zero (`hints`: inverses of the `field_div` divisors in evaluation order;
     may be empty) -/
-def nzCount (inp : Inputs) (hints : List Nat) (p : Prog) : Option Nat :=
-  withInputs inp fun fi =>
-    match nzGo fi p Trie.leaf hints 0 with
-    | some r => some r.2.2
-    | none => none
+noncomputable def nzCount (inp : Inputs) (hints : List Nat) (p : Prog) : Option Nat :=
+  withInputs inp fun fi => nzGo fi p .leaf hints 0 fun _ _ k => some k
 
 end Swiftness.Ast.Fast
